@@ -139,7 +139,7 @@ def out_sig(node):
 
 def too_long(path):
     """A path with a component the kernel rejects (ENAMETOOLONG)."""
-    return any(len(c.encode()) > 255 for c in path.split('/'))
+    return any(len(os.fsencode(c)) > 255 for c in path.split('/'))
 
 
 class Invalid(BaseException):
@@ -180,6 +180,7 @@ class ModelBuild:
         self.now = clock_now
         self.serve = serve and prev is not None
         self.hints = hints or {}
+        self.call_counts = {}
         self.allow_ancestor_outputs = allow_ancestor_outputs
         # --- M0: start state
         V = T_pre.copy()
@@ -549,13 +550,24 @@ class ModelBuilder:
         kwargs = jround(dict(kwargs))
         key = file_key(path)
         rec = Rec('f', key, fname, path, args, kwargs, cmp)
+        mb.call_counts[key] = mb.call_counts.get(key, 0) + 1
         hint = mb.hints.get(('setup_fail', key))
         try:
-            if hint is not None and not hint.get('used'):
+            if hint is not None and not hint.get('used') and \
+                    hint.get('occ', mb.call_counts[key]) == \
+                    mb.call_counts[key]:
                 # an injected internal OSError made this call fail in setup
                 if key in st.claims:
                     raise RuntimeError('same file twice')
                 hint['used'] = True
+                if mb.T_pre.is_dir(path) and any(
+                        n[0] == 'f' and q.startswith(path + '/')
+                        for q, n in mb.T_pre.nodes.items()):
+                    # the target is a stale directory that still holds files:
+                    # making room for it moves them aside one by one, and the
+                    # injected error may have struck after some were moved -
+                    # which ones is not modelled
+                    raise Invalid('injected failure while making room')
                 raise hint['cls']('injected')
             made = mb._setup_file(st, path, physical=True)
         except Invalid:
@@ -637,13 +649,16 @@ class ModelBuilder:
         kwargs = jround(dict(kwargs))
         key = sub_key(fname, args, kwargs)
         rec = Rec('s', key, fname, None, args, kwargs, None)
+        mb.call_counts[key] = mb.call_counts.get(key, 0) + 1
         if key in st.claims:
             rec.status = 'setup'
             rec.exc = 'RuntimeError'
             self._append(rec)
             raise RuntimeError('same subbuild twice')
         hint = mb.hints.get(('setup_fail', key))
-        if hint is not None and not hint.get('used'):
+        if hint is not None and not hint.get('used') and \
+                hint.get('occ', mb.call_counts.get(key, 1)) == \
+                mb.call_counts.get(key, 1):
             hint['used'] = True
             rec.status = 'setup'
             rec.exc = hint['cls'].__name__
